@@ -345,7 +345,9 @@ func run(r *vt.Run, t vt.TB, s spec) {
 			if oerr != nil {
 				r.Harness(t, "open of the base state: %v", oerr)
 			}
-			if _, err := readAllHandle(old); err != nil {
+			// it has only looked at the schema so far (had it read everything,
+			// a small database would be answered from its page cache)
+			if _, err := old.Columns("t"); err != nil {
 				old.Close()
 				r.Harness(t, "read of the base state: %v", err)
 			}
